@@ -1,4 +1,5 @@
 //! Shared checker modules (each property has its own binary under src/bin/).
+pub mod qmodel;
 pub mod rdfstore;
 pub mod txmgr;
 
